@@ -101,6 +101,16 @@ class CollectFootnotes(Transform):
 
     # document: nodes.document
 
+    def _last_content_node(self) -> nodes.Node | None:
+        """The last node of the document that is not a footnote (descending into sections)."""
+        node: nodes.Node = self.document
+        while isinstance(node, nodes.document | nodes.section):
+            children = [c for c in node.children if not isinstance(c, nodes.footnote)]
+            if not children:
+                return None
+            node = children[-1]
+        return node
+
     def apply(self, **kwargs: t.Any) -> None:
         """Apply the transform."""
         if not self.document.settings.myst_footnote_sort:
@@ -120,6 +130,8 @@ class CollectFootnotes(Transform):
             and self.document.settings.myst_footnote_transition
             # avoid warning: Document or section may not begin with a transition
             and not all(isinstance(c, nodes.footnote) for c in self.document.children)
+            # avoid error: adjacent transitions are not allowed
+            and not isinstance(self._last_content_node(), nodes.transition)
         ):
             transition = nodes.transition(classes=["footnotes"])
             transition.source = self.document.source
